@@ -775,19 +775,25 @@ func c08Known(c *C08Case, o *c08Obs) string {
 	if !exhaustion {
 		return ""
 	}
+	// layers are merged into one document before evaluation: the references
+	// may come from different files of the chain
+	total := 0
 	for _, f := range c.World.Files {
 		for _, d := range f.Docs {
-			if selfContainingRefs(d.V) >= 2 {
-				return "c08-branching-self-reference"
-			}
+			total += selfContainingRefs(d.V)
 		}
 		if f.Raw != nil {
+			best := 0
 			for _, d := range parseLoose(*f.Raw) {
-				if selfContainingRefs(d) >= 2 {
-					return "c08-branching-self-reference"
+				if n := selfContainingRefs(d); n > best {
+					best = n
 				}
 			}
+			total += best
 		}
+	}
+	if total >= 2 {
+		return "c08-branching-self-reference"
 	}
 	if c.StdinDoc == nil && c.Inv.Stdin != "" {
 		for _, d := range parseLoose(c.Inv.Stdin) {
